@@ -4,7 +4,7 @@ CONSTANTS
   MaxOps = 3
   MaxAttempt = 7
   Kinds = {"dkg"}
-  Slots = {1, 2}
+  Slots = {1}
   AllCalls = FALSE
   Variant = "hazard"
 INVARIANTS TypeOK Agreement ExcludedWellFormed OnlyReady SigningExact DkgQualified ErrorsExact
